@@ -10,5 +10,6 @@ export GOFLAGS=-mod=mod GOPROXY=off GOSUMDB=off GOTOOLCHAIN=local
 go build ./... || { echo "BUILD FAILS"; git checkout -- .; exit 3; }
 (cd /verif && ./check "$ID" quick); rc=$?
 git checkout -- .
+(cd /verif && git checkout -- evidence 2>/dev/null)
 echo "check exit=$rc"
 exit 0
